@@ -48,8 +48,9 @@ REG = {
                   ["containers-checked", "monitor:pick"]),
     "C07": dict(module="vlib.props.c07", level="exploration",
                 rule="(a) every project of the small universe (<=3 leaf tasks x effort {1,2} slots x priority {low,high} x every labelled DAG x "
-                     "allocation among <=2 resources x calendar {default, half-day shift, one leave day} x {flat, one container}): complete in "
-                     "thorough, seeded 1/8 slice in quick; (b) random core-dialect projects (all resolutions, DAGs, priorities, gaps, pins, "
+                     "allocation among <=2 resources x calendar {default, half-day shift, one leave day} x {flat, one container} x {no limit, dailymax 2h} x "
+                     "{no pin, last task pinned}; 155,904 projects): complete in "
+                     "thorough, seeded 1/12 slice in quick; (b) random core-dialect projects (all resolutions, DAGs, priorities, gaps, pins, "
                      "leaves, limits incl. task limits, teams, zones, nested containers). Every case: engine dates == reference list scheduler "
                      "(pinned milestones count as placed from the start) and M-pick order law. distinct = (dialect, resolution, #leaves, depth, team sizes, "
                      "shifts?, limits?, zones?, #dependent tasks, picks reordered vs declaration?, contention?)",
